@@ -22,10 +22,12 @@ CLAUSES = ["bracket", "tiefree", "member", "order", "between", "convex", "monoto
 
 
 def n_cases(tier):
-    return 600 if tier == "quick" else 12000
+    return 600 if tier == "quick" else 40000 + len(thr_common.EXH_THR)
 
 
 def gen_one(rng, i, tier):
+    if tier == "thorough" and i < len(thr_common.EXH_THR):
+        return thr_common.exhaustive_thr_input(i)
     return thr_common.gen_thr_input(rng, i)
 
 
